@@ -15,8 +15,10 @@ Two adjustments make this work:
 * libFuzzer ends the process with ``_exit``; results are therefore written from inside the callback
   (every few cases and at the last run).
 
-A violation found here is shrunk by ``json_shrink`` (greedy structural minimisation of the JSON case under
-"still fails with the same signature"), not by Hypothesis.
+A violation found here is shrunk by Hypothesis: ``fuzz_one_input`` stores the failing choice sequence in an
+in-memory example database, and an ordinary run of the same test with the phases (reuse, shrink) replays and
+minimises it INSIDE the strategy's domain (a structural shrinker working on the JSON case left the domain -
+batch size 0, dangling parents - and reported nonsense; it was removed).
 """
 
 import copy
@@ -46,92 +48,6 @@ def patch_provider():
         return min_value + self._draw_bits(span.bit_length() + 8) % (span + 1)
 
     BytestringProvider.draw_integer = draw_integer
-
-
-# ----------------------------------------------------------------------------------------
-# generic shrinking of a JSON case
-# ----------------------------------------------------------------------------------------
-
-def _paths(obj, prefix=()):
-    yield prefix, obj
-    if isinstance(obj, dict):
-        for k in sorted(obj):
-            for x in _paths(obj[k], prefix + (k,)):
-                yield x
-    elif isinstance(obj, list):
-        for i, v in enumerate(obj):
-            for x in _paths(v, prefix + (i,)):
-                yield x
-
-
-def _get(obj, path):
-    for p in path:
-        obj = obj[p]
-    return obj
-
-
-def _set(obj, path, value):
-    obj = copy.deepcopy(obj)
-    if not path:
-        return value
-    cur = obj
-    for p in path[:-1]:
-        cur = cur[p]
-    cur[path[-1]] = value
-    return obj
-
-
-def _candidates(value):
-    if isinstance(value, bool):
-        if value:
-            yield False
-    elif isinstance(value, int):
-        for c in (0, 1, value // 2, value - 1 if value > 0 else value + 1):
-            if c != value and abs(c) <= abs(value):
-                yield c
-    elif isinstance(value, float):
-        if value != value:
-            return
-        for c in (0.0, 1.0, float(round(value)), float(round(value, 1)), float(round(value, 3))):
-            if c != value and abs(c) <= abs(value) + 1:
-                yield c
-    elif isinstance(value, list):
-        n = len(value)
-        k = n // 2
-        while k >= 1:
-            for i in range(0, n - k + 1, k):
-                yield value[:i] + value[i + k:]
-            k //= 2
-
-
-def json_shrink(case, fails, budget_s=60.0):
-    """Greedy minimisation: ``fails(candidate)`` is True when the candidate still fails the same way.
-
-    Any exception inside ``fails`` (a candidate outside the domain of the harness) counts as "does not fail".
-    """
-    case = json.loads(json.dumps(case))
-    t_end = time.time() + budget_s
-    improved = True
-    while improved and time.time() < t_end:
-        improved = False
-        for path, value in list(_paths(case)):
-            try:
-                cur = _get(case, path)
-            except (KeyError, IndexError, TypeError):
-                continue          # the structure changed under us
-            for cand in _candidates(cur):
-                if time.time() > t_end:
-                    return case
-                trial = _set(case, path, cand)
-                try:
-                    ok = fails(trial)
-                except BaseException:
-                    ok = False
-                if ok:
-                    case = trial
-                    improved = True
-                    break
-    return case
 
 
 # ----------------------------------------------------------------------------------------
@@ -171,6 +87,8 @@ def fuzz_worker(prop, part_name, shard, nshards, tier, seed, out_path, scale=1.0
         for mi in pkgutil.walk_packages(elfi.__path__, 'elfi.'):
             if '.examples' in mi.name or 'testbench' in mi.name or 'visualization' in mi.name:
                 continue
+            if mi.name.startswith('elfi.clients.') and mi.name != 'elfi.clients.native':
+                continue     # importing a client module makes it the default client (module-level set_as_default())
             try:
                 importlib.import_module(mi.name)
             except Exception:
@@ -196,45 +114,54 @@ def fuzz_worker(prop, part_name, shard, nshards, tier, seed, out_path, scale=1.0
         dump()
         last_dump[0] = time.time()
 
-    def judge(case):
-        try:
-            part.run_case(case)
-        except Violation as v:
-            return v.signature
-        return None
+    from hypothesis import Phase
+    from hypothesis.database import InMemoryExampleDatabase
+    last = {}
+    shrink_deadline = [None]
 
-    @settings(database=None, deadline=None, suppress_health_check=list(HealthCheck),
-              verbosity=hypothesis.Verbosity.quiet)
+    @settings(database=InMemoryExampleDatabase(), deadline=None, suppress_health_check=list(HealthCheck),
+              verbosity=hypothesis.Verbosity.quiet, phases=[Phase.reuse, Phase.shrink], report_multiple_bugs=False,
+              print_blob=False, max_examples=1)
     @given(part.strategy(tier))
     def test(case):
+        if shrink_deadline[0] is not None and time.time() > shrink_deadline[0]:
+            return
         try:
             res = part.run_case(case)
         except Violation as v:
             if v.signature in known:
-                stats.excluded_known[v.signature] += 1
-                stats.evaluations += 1
+                if shrink_deadline[0] is None:
+                    stats.excluded_known[v.signature] += 1
+                    stats.evaluations += 1
                 return
             if v.signature in suppressed or len(suppressed) >= 3:
                 return
-            suppressed.add(v.signature)
-            small = case
-            if part.shrink:
-                sig = v.signature
-                small = json_shrink(case, lambda c: judge(c) == sig, min(part.max_shrink_s, 90))
-                try:
-                    part.run_case(small)
-                    small, msg, detail = case, v.message, v.detail     # shrunk case stopped failing: keep the original
-                except Violation as v2:
-                    msg, detail = v2.message, v2.detail
-                except Exception:
-                    small, msg, detail = case, v.message, v.detail
-            else:
-                msg, detail = v.message, v.detail
-            result['violations'].append({'signature': v.signature, 'message': msg + ' [engine: atheris]',
-                                         'case': small, 'detail': detail, 'part': part.name})
-            sync()
-            return
-        stats.record(case, res)
+            last['case'] = case
+            last['v'] = v
+            raise
+        if shrink_deadline[0] is None:
+            stats.record(case, res)
+
+    def found():
+        """A new violation came out of fuzz_one_input: minimise it with Hypothesis (replay from the database + shrink)."""
+        v0, case0 = last['v'], last['case']
+        if part.shrink:
+            shrink_deadline[0] = time.time() + min(part.max_shrink_s, 90)
+            try:
+                test()
+            except Violation:
+                pass
+            except Exception:
+                pass            # Flaky etc.: `last` holds the smallest failing case seen
+            shrink_deadline[0] = None
+        v, case = last['v'], last['case']
+        if v.signature != v0.signature:
+            v, case = v0, case0
+        suppressed.add(v0.signature)
+        result['violations'].append({'signature': v.signature, 'message': v.message + ' [engine: atheris]',
+                                     'case': case, 'detail': v.detail, 'part': part.name})
+        last.clear()
+        sync()
 
     def one(data):
         calls[0] += 1
@@ -242,6 +169,8 @@ def fuzz_worker(prop, part_name, shard, nshards, tier, seed, out_path, scale=1.0
             test.hypothesis.fuzz_one_input(data)
         except (KeyboardInterrupt, SystemExit):
             raise
+        except Violation:
+            found()
         except BaseException:
             # an exception that is not a Violation is a bug of the harness (or an elfi exception the check does
             # not wrap): report it as a harness error, never as a violation
